@@ -110,12 +110,12 @@ class Check(object):
         return False
 
     def e2(self, name, fn, bounds=None, max_wall_s=None, chunk_paths=300, expect_nontrivial=True,
-           stop_on_violation=False):
+           stop_on_violation=False, split=None):
         if self._skip(name):
             return None
         t = time.time()
         st = ps.parallel_explore(fn, chunk_paths=chunk_paths, stop_on_violation=stop_on_violation,
-                                 max_wall_s=max_wall_s)
+                                 max_wall_s=max_wall_s, split=split)
         d = st.as_dict()
         d.update(stage=name, engine='E2 pathsym', bounds=bounds or {})
         self.stages.append(d)
